@@ -148,10 +148,14 @@ impl<R: DynamicChannelRegion> RegionHandler for DynamicChannelPlan<R> {
         ch_mask: ChannelMask<2>,
     ) -> Option<()> {
         match ch_mask_ctl {
-            0..=4 => {
+            0..=3 => {
                 let base_index = ch_mask_ctl as usize * 2;
                 channel_mask.set_bank(base_index, ch_mask.get_index(0));
                 channel_mask.set_bank(base_index + 1, ch_mask.get_index(1));
+            }
+            4 => {
+                // channels 64..=71 only: the upper byte is RFU and ChannelMask<9> has no bank 9
+                channel_mask.set_bank(8, ch_mask.get_index(0));
             }
             5 => {
                 let ch_mask: u16 =
